@@ -3,9 +3,10 @@
    about the warm start and the diagonal change of variables. *)
 From Coq Require Import Reals List Bool Arith.
 From Coquelicot Require Import Coquelicot.
-From OV.model Require Import M_C19_CFG M_C19_Warm.
+From OV.base Require Import Num.
+From OV.model Require Import M_C06_Vec M_C19_CFG M_C19_Warm M_C19_CG M_C19_Sem.
 From OV.gen Require Import CFG_drivers.
-From OV.proofs Require Import L_C19.
+From OV.proofs Require Import L_C06_Vec L_C19 L_C19_CG L_C19_Sem L_C19_All.
 Import ListNotations.
 Local Open Scope R_scope.
 
@@ -57,12 +58,66 @@ Theorem C19_warm_start_cg_bound_equilibrium : forall (V Pm : Type) (vadd : V -> 
   nrm (g V Pm vadd H B c (vadd x dx) p_new) <= rtol * nrm (B (psub p_old p_new)).
 Proof. exact warm_start_cg_bound_equilibrium. Qed.
 
+(* ---- round 4: the linear solve of WarmStart.warm_start_increment inside the model (model/M_C19_CG.v: scipy.sparse.linalg.cg as
+   called there -- x0 = 0, atol = 0, maxiter = 10 n, test `norm(r) < max(atol, rtol |b|)` at the head of every pass, info NOT
+   looked at by warm_start_increment).  Vectors are lists of reals of length n (`len n v`), a ⋅ b the dot product, nrm the Euclidean
+   norm.  For a Hessian oracle that is linear, symmetric and positive definite and a preconditioner that is symmetric and positive
+   definite (nothing else is assumed about either), for EVERY right-hand side: the routine flags convergence after at most n passes
+   (conjugate directions are independent: at most n of them) and the returned increment satisfies the residual bound -- so the
+   unchecked info flag is harmless in exact arithmetic; in binary64 the bound is checked on every warm start of the streams. *)
+Theorem C19_scipy_cg_solves : forall (n : nat) (Hf Pf : list R -> list R),
+  (forall v, len n v -> len n (Hf v)) -> (forall v, len n v -> len n (Pf v)) ->
+  (forall a k b, len n a -> len n b -> Hf (raxpy a k b) = raxpy (Hf a) k (Hf b)) ->
+  (forall a b, len n a -> len n b -> a ⋅ Hf b = Hf a ⋅ b) -> (forall v, len n v -> 0 < v ⋅ v -> 0 < v ⋅ Hf v) ->
+  (forall a b, len n a -> len n b -> a ⋅ Pf b = Pf a ⋅ b) -> (forall v, len n v -> 0 < v ⋅ v -> 0 < v ⋅ Pf v) ->
+  forall b maxiter rtol, len n b -> 0 < rtol -> (n < maxiter)%nat ->
+  let '(x, ok, k) := @scipy_cg R NumR Hf Pf b maxiter rtol 0 in
+  len n x /\ ok = true /\ (k <= n)%nat /\ nrm (rsub b (Hf x)) <= rtol * nrm b.
+Proof. exact scipy_cg_solves. Qed.
+
+(* warm_start_increment: dp = p_old - p_new, b = B dp (B = objective.jacobian_p_vec(x, .), any function into R^n), dx = cg(...) *)
+Theorem C19_warm_start_increment_solves : forall (n : nat) (Hf Pf : list R -> list R),
+  (forall v, len n v -> len n (Hf v)) -> (forall v, len n v -> len n (Pf v)) ->
+  (forall a k b, len n a -> len n b -> Hf (raxpy a k b) = raxpy (Hf a) k (Hf b)) ->
+  (forall a b, len n a -> len n b -> a ⋅ Hf b = Hf a ⋅ b) -> (forall v, len n v -> 0 < v ⋅ v -> 0 < v ⋅ Hf v) ->
+  (forall a b, len n a -> len n b -> a ⋅ Pf b = Pf a ⋅ b) -> (forall v, len n v -> 0 < v ⋅ v -> 0 < v ⋅ Pf v) ->
+  forall (m : nat) (Bf : list R -> list R), (forall q, len m q -> len n (Bf q)) ->
+  forall p_old p_new rtol, len m p_old -> len m p_new -> 0 < rtol ->
+  let bb := Bf (rsub p_old p_new) in
+  let '(dx, ok, k) := @warm_start_increment R NumR Hf Pf Bf p_old p_new rtol in
+  len n dx /\ ok = true /\ (k <= n)%nat /\ nrm (rsub bb (Hf dx)) <= rtol * nrm bb.
+Proof. exact warm_start_increment_solves. Qed.
+
+(* ... and for a residual affine in (x, p), g(x, p) = H x + B p + c, the point predicted by the MODELLED routine satisfies the
+   bound that C19_warm_start_cg_bound states for an abstract solve: no hypothesis about the linear solve is left *)
+Theorem C19_warm_start_increment_residual_bound : forall (n : nat) (Hf Pf : list R -> list R),
+  (forall v, len n v -> len n (Hf v)) -> (forall v, len n v -> len n (Pf v)) ->
+  (forall a k b, len n a -> len n b -> Hf (raxpy a k b) = raxpy (Hf a) k (Hf b)) ->
+  (forall a b, len n a -> len n b -> a ⋅ Hf b = Hf a ⋅ b) -> (forall v, len n v -> 0 < v ⋅ v -> 0 < v ⋅ Hf v) ->
+  (forall a b, len n a -> len n b -> a ⋅ Pf b = Pf a ⋅ b) -> (forall v, len n v -> 0 < v ⋅ v -> 0 < v ⋅ Pf v) ->
+  forall (m : nat) (Bf : list R -> list R), (forall q, len m q -> len n (Bf q)) ->
+  forall c, len n c -> (forall p q w, len m p -> len m q -> len n w -> Bf (rsub p q) ⋅ w = Bf p ⋅ w - Bf q ⋅ w) ->
+  forall x p_old p_new rtol, len n x -> len m p_old -> len m p_new -> 0 < rtol ->
+  let dx := fst (fst (@warm_start_increment R NumR Hf Pf Bf p_old p_new rtol)) in
+  nrm (gaff Hf Bf c (radd x dx) p_new) <= nrm (gaff Hf Bf c x p_old) + rtol * nrm (Bf (rsub p_old p_new)).
+Proof. exact warm_start_increment_residual_bound. Qed.
+
+Example C19_warm_start_increment_nonvacuous :
+  let '(dx, ok, k) := @warm_start_increment R NumR (rscale 2) (fun v => v) (fun v => v) [1; 0] [0; 0] (/ 100000) in
+  len 2 dx /\ ok = true /\ (k <= 2)%nat /\ nrm (rsub (rsub [1; 0] [0; 0]) (rscale 2 dx)) <= / 100000 * nrm (rsub [1; 0] [0; 0]).
+Proof. exact warm_start_increment_nonvacuous. Qed.
+(* NOT PROVED: binary64 behaviour of the CG recurrence (loss of conjugacy; the n-pass bound does not hold in floating point, scipy's
+   10 n cap and the unchecked info flag are then the only guard -- measured on every warm start of the streams); that jax.jvp /
+   objective.hessian_vec deliver a linear symmetric positive definite operator (JAX; symmetry and definiteness are the property's
+   premise "positive-definite Hessian at the current solution"); a non-affine residual (the increment is then the linear predictor by
+   definition, C19_warm_start_increment_solves says it solves the linearised system). *)
+
 (* scaling: xBar = d * x with d_j <> 0 (d = sqrt(diag K) > 0 in the code) *)
-Theorem C19_scaling_minimisers : forall (f : rvec -> R) d xb, (forall j, d j <> 0) ->
+Theorem C19_scaling_minimisers : forall (f : M_C19_Warm.rvec -> R) d xb, (forall j, d j <> 0) ->
   (forall yb, scaled f d xb <= scaled f d yb) <-> (forall y, f (unscale d xb) <= f y).
 Proof. exact scaling_minimisers. Qed.
 
-Theorem C19_scaling_stationary : forall (f : rvec -> R) d xb (gr : nat -> R), (forall j, d j <> 0) ->
+Theorem C19_scaling_stationary : forall (f : M_C19_Warm.rvec -> R) d xb (gr : nat -> R), (forall j, d j <> 0) ->
   (forall i, is_derive (fun s => f (upd (unscale d xb) i s)) 0 (gr i)) ->
   (forall i, is_derive (fun t => scaled f d (upd xb i t)) 0 (gr i / d i))
   /\ ((forall i, gr i / d i = 0) <-> (forall i, gr i = 0)).
@@ -92,6 +147,38 @@ Theorem C19_path_ok_meaning : forall e ts en, path_ok e (ts, en) = true ->
        | EndRaise => True | _ => False end.
 Proof. exact path_ok_sound. Qed.
 
+(* ---- round 4: the order property for EVERY execution.  model/M_C19_Sem.v gives the IR a big-step non-deterministic semantics
+   (execs l ts o: every condition may go either way, a loop may make ANY number of passes, ts = every tag executed, o = how the body
+   was left) and a static checker sa_ok (sets of states of a five-state automaton pushed through the tree, loop invariants checked to
+   be fixed points).  The checker is sound for every IR value -- a proof about the semantics, not an enumeration -- and the four
+   regenerated trees pass it.  This removes the bound "loops 0/1/2 passes, fuel" of C19_driver_order from the trusted base; the
+   failure exits are covered: every execution ends in a return or a raise, and on BOTH objective.p := p_new has happened exactly once
+   and before every solver call (C19_path_ok_meaning spells path_ok out). *)
+Theorem C19_static_checker_sound : forall e l, sa_ok e l = true -> forall ts o, execs l ts o ->
+  ((exists x u f, o = ORet x u f) \/ o = ORaise) /\ path_ok e (ts, ending_of o) = true.
+Proof. exact sa_sound. Qed.
+
+Theorem C19_driver_order_every_execution :
+  (forall ts o, execs cfg_nonlinear_equation_solve ts o ->
+     ((exists x u f, o = ORet x u f) \/ o = ORaise) /\ path_ok exp_flag_unscaled (ts, ending_of o) = true)
+  /\ (forall ts o, execs cfg_spg_solve ts o ->
+     ((exists x u f, o = ORet x u f) \/ o = ORaise) /\ path_ok exp_flag_unscaled (ts, ending_of o) = true)
+  /\ (forall ts o, execs cfg_bound_constrained_solve ts o ->
+     ((exists x u f, o = ORet x u f) \/ o = ORaise) /\ path_ok exp_noflag_unscaled (ts, ending_of o) = true)
+  /\ (forall ts o, execs cfg_augmented_lagrange_solve ts o ->
+     ((exists x u f, o = ORet x u f) \/ o = ORaise) /\ path_ok exp_noflag_raw (ts, ending_of o) = true).
+Proof. exact drivers_every_execution. Qed.
+
+Example C19_exec_nonvacuous :
+  execs demo_tree ([AssignPNew] ++ [SubSolve] ++ ([SubSolve] ++ [SubSolve] ++ [SubSolve] ++ []) ++ []) (ORet true false FlagNone)
+  /\ sa_ok exp_noflag_raw demo_tree = true.
+Proof. exact exec_nonvacuous. Qed.
+(* NOT PROVED here: the value-level statement "flag = true implies |grad f(x, p_new)| < tol" for the interpreted tree of
+   nonlinear_equation_solve is C01_driver_success_means_small_gradient_under_requested_parameters (props/P_C01.v, all paths of the
+   interpreter of gen/CFG_TR.v); for TrustRegionSPG.solve, bound_constrained_solve and augmented_lagrange_solve only the order
+   property above is proved (their solvers' flags are the subject of C05 / C04), the value-level clause is checked on the running
+   drivers by the streams.  Exceptions raised inside callees are not modelled. *)
+
 (* slot laws of Objective.param_index_update (table regenerated from the source) *)
 Theorem C19_slot_laws : forall (A : Type) (a0 a1 a2 a3 a4 a5 v d : A) i j, (i < 6)%nat -> (j < 6)%nat ->
   option_map (fun l => nth j l d) (piu_apply piu_rows [a0; a1; a2; a3; a4; a5] i v d)
@@ -112,3 +199,5 @@ Print Assumptions C19_warm_start_cg_bound_equilibrium.
 Print Assumptions C19_scaling_stationary.
 Print Assumptions C19_driver_order.
 Print Assumptions C19_slot_laws.
+Print Assumptions C19_warm_start_increment_residual_bound.
+Print Assumptions C19_driver_order_every_execution.
